@@ -42,6 +42,13 @@ def decaying_cores(N, M, r, rho, dt, g):
 
 @st.composite
 def strategy_case(draw):
+    if draw(st.integers(0, 59)) == 0:
+        # "hidden term" family (from the audit): the product is T1 + c*T2 with T2 orthogonal to T1 in every mode and the user's
+        # initial guess is T1 itself, the dominant term
+        return {"family": "hidden_term", "routine": draw(st.sampled_from(["fast_matvec", "dmrg_hadamard", "amen_mv"])), "dt": "f64",
+                "d": draw(st.sampled_from([5, 6])), "n": draw(st.sampled_from([4, 5, 6])), "eps": draw(st.sampled_from([1e-6, 1e-8])),
+                "cmult": draw(st.sampled_from([10.0, 20.0])), "seed": draw(gen.SEED), "lib_seed": draw(gen.SEED),
+                "N": [0], "spectrum": "hidden"}
     routine = draw(st.sampled_from(["fast_matvec", "dmrg_hadamard", "amen_mv", "amen_mm"]))
     d = draw(st.sampled_from([1, 2, 2, 3, 3, 4, 5, 6]))
     dt = draw(st.sampled_from(["f64", "f64", "c128", "f32", "c64"])) if routine in ("fast_matvec", "dmrg_hadamard") else "f64"
@@ -87,7 +94,58 @@ def strategy(tier):
 
 def features(case):
     return {"routine": case["routine"], "order": len(case["N"]), "dt": case["dt"], "initial_guess": "init_R" in case,
-            "spectrum": case["spectrum"]}
+            "spectrum": case["spectrum"], "family": case.get("family", "generic")}
+
+
+def _hidden_term(T, ck, case):
+    d, n, eps, c = case["d"], case["n"], case["eps"], case["cmult"] * case["eps"]
+    g = core.rng(case["seed"])
+    routine = case["routine"]
+    ck.label("family:hidden_term", "routine:" + routine, "order:%d" % d)
+    U = [torch.linalg.qr(core.payload([n, n], "f64", "gauss", g))[0] for _ in range(d)]
+    u0 = [Q[:, 0].clone() for Q in U]
+    u1 = [Q[:, 1].clone() for Q in U]
+
+    def r1(vs):
+        return [v.reshape(1, -1, 1).clone() for v in vs]
+
+    def tt_sum(a, b, cb):           # rank-2 TT cores of a + cb*b (a, b rank-1 given as vectors per mode)
+        out = []
+        for k in range(d):
+            if k == 0:
+                out.append(torch.stack([a[k], cb * b[k]], 1).reshape(1, n, 2))
+            elif k == d - 1:
+                out.append(torch.stack([a[k], b[k]], 0).reshape(2, n, 1))
+            else:
+                cc = torch.zeros(2, n, 2, dtype=torch.float64)
+                cc[0, :, 0] = a[k]
+                cc[1, :, 1] = b[k]
+                out.append(cc)
+        return out
+    ref = None
+    T1 = T.TT(r1(u0))
+    t1d, t2d = dense(r1(u0)), dense(r1(u1))
+    ref = t1d + c * t2d
+    torch.manual_seed(case["lib_seed"])
+    if routine in ("fast_matvec", "amen_mv"):
+        Ak = [core.payload([n, n], "f64", "gauss", g) + 3.0 * torch.eye(n, dtype=torch.float64) for _ in range(d)]
+        A = T.TT([a.reshape(1, n, n, 1).clone() for a in Ak])
+        x1 = [torch.linalg.solve(Ak[k], u0[k]) for k in range(d)]
+        x2 = [torch.linalg.solve(Ak[k], u1[k]) for k in range(d)]
+        x = T.TT(tt_sum(x1, x2, c))
+        if routine == "fast_matvec":
+            y = lib(lambda: A.fast_matvec(x, eps=eps, initial=T1, use_cpp=False))
+        else:
+            y = lib(lambda: T.amen_mv(A, x, x0=T1, eps=eps))
+    else:
+        w = [core.payload([n], "f64", "gauss", g).abs() + 0.5 for _ in range(d)]
+        W = T.TT(r1(w))
+        p = T.TT(tt_sum([u0[k] / w[k] for k in range(d)], [u1[k] / w[k] for k in range(d)], c))
+        y = lib(lambda: T.dmrg_hadamard(W, p, z0=T1, eps=eps, use_cpp=False))
+    if ck.require(isinstance(y, T.TT) and [int(m) for m in y.N] == [n] * d, "shape", "result shape"):
+        ck.bound(fro(dense(y.cores) - ref), C_EPS * eps * fro(ref), "accuracy", "hidden term c=%g eps=%g ranks=%s" % (c, eps, y.R))
+    ck.nontrivial = True
+    return ck.verdict()
 
 
 def _operand(case, N, M, R, g, seed_off):
@@ -110,6 +168,8 @@ def _maybe_zero(case, cores, seed_off):
 def execute(case):
     T = core.tt()
     ck = Checker()
+    if case.get("family") == "hidden_term":
+        return _hidden_term(T, ck, case)
     routine, dt, eps = case["routine"], case["dt"], case["eps"]
     u = UNIT[dt]
     N = case["N"]
